@@ -606,11 +606,9 @@ func (pm *Portmapper) handleGetAddr(r io.Reader) []byte {
 	xdrDecodeString(r) // r_owner
 
 	// Determine protocol from netid
-	var prot uint32
-	if netid == "tcp" || netid == "tcp6" {
-		prot = IPPROTO_TCP
-	} else {
-		prot = IPPROTO_UDP
+	prot, ok := netidProtocol(netid)
+	if !ok {
+		return pm.encodeEmptyString()
 	}
 
 	port := pm.GetPort(prog, vers, prot)
@@ -648,6 +646,18 @@ func (pm *Portmapper) handleGetAddr(r io.Reader) []byte {
 	return buf.Bytes()
 }
 
+// netidProtocol maps an rpcbind netid to the protocol number the mappings are
+// keyed by. ok is false for a netid this server has no transport for.
+func netidProtocol(netid string) (prot uint32, ok bool) {
+	switch netid {
+	case "tcp", "tcp6":
+		return IPPROTO_TCP, true
+	case "udp", "udp6":
+		return IPPROTO_UDP, true
+	}
+	return 0, false
+}
+
 // handleRpcbSet handles rpcbind v3/v4 SET procedure
 func (pm *Portmapper) handleRpcbSet(r io.Reader) []byte {
 	// Read rpcb structure
@@ -672,9 +682,9 @@ func (pm *Portmapper) handleRpcbSet(r io.Reader) []byte {
 	// Parse universal address to get port
 	// Format: "host.port_hi.port_lo"
 	var port uint32
-	var prot uint32 = IPPROTO_TCP
-	if netid == "udp" || netid == "udp6" {
-		prot = IPPROTO_UDP
+	prot, ok := netidProtocol(netid)
+	if !ok {
+		return pm.encodeBool(false)
 	}
 
 	// Parse port from uaddr
@@ -714,9 +724,9 @@ func (pm *Portmapper) handleRpcbUnset(r io.Reader) []byte {
 	xdrDecodeString(r) // r_addr - ignored
 	xdrDecodeString(r) // r_owner - ignored
 
-	var prot uint32 = IPPROTO_TCP
-	if netid == "udp" || netid == "udp6" {
-		prot = IPPROTO_UDP
+	prot, ok := netidProtocol(netid)
+	if !ok {
+		return pm.encodeBool(false)
 	}
 
 	pm.UnregisterService(prog, vers, prot)
